@@ -147,6 +147,16 @@ func runC38(c *Ctx) {
 		for i := 1; i < m.NumFields(); i++ {
 			ml = append(ml, m.Field(i).Type().String()+tagOf(m.Tag(i)))
 		}
+		// Where neighbouring fields have the same Go type (E,N / P,Q,G,Y) the
+		// types alone cannot show a swap: within such runs the field names
+		// (the RFC's names for the values) must agree too.
+		base := append([]string{}, pl...)
+		for j := 0; j < len(base) && j < len(ml); j++ {
+			if (j > 0 && base[j] == base[j-1]) || (j+1 < len(base) && base[j] == base[j+1]) {
+				pl[j] = p.Field(j).Name() + " " + pl[j]
+				ml[j] = m.Field(j+1).Name() + " " + ml[j]
+			}
+		}
 		c.check(okName && strings.Join(pl, ",") == strings.Join(ml, ","), "C38.layout", spec.parse+" / "+spec.marshal, mf,
 			fmt.Sprintf("name + %v on both sides", pl), fmt.Sprintf("Marshal writes name(%v)+%v but the parser reads %v", okName, ml, pl))
 	}
